@@ -34,7 +34,7 @@ ASSUMPTIONS = [
     "pick the same file",
 ]
 BOUNDS = {
-    "quick": "resolve/: 2 names x 4 directories (8 existence bits), 5 -I orders, 2 look-ups; scn/: 8 scenario templates, each "
+    "quick": "resolve/: 2 names x 4 directories (8 existence bits), 5 -I orders, 2 look-ups; scn/: 10 scenario templates, each "
              "with <= 6 symbolic bits (copies that exist, -I order, -D, quote/angle)",
     "thorough": "resolve/: 3 look-ups; scn/: the same templates with all bits free",
 }
@@ -261,13 +261,13 @@ def t_forced(b):
 
 def t_computed(b):
     """computed include: the operand is macro-expanded and then has one of the two forms"""
-    hdr = 'HDR="x.h"' if b[0] else "HDR=<x.h>"
+    hdr = 'HDR="sub/x.h"' if b[0] else "HDR=<sub/x.h>"
     files = {
         "/r/src/main.c": ["#include HDR", "#ifdef X_SRC", "@", "#endif", "#ifdef X_I", "@", "#endif"],
-        "/r/src/x.h": ["#define X_SRC", "@"],
-        "/r/i/x.h": ["#define X_I", "@"],
+        "/r/src/sub/x.h": ["#define X_SRC", "@"],
+        "/r/i/sub/x.h": ["#define X_I", "@"],
     }
-    fs = scen.build_fs(files, maybe={"/r/src/x.h": b[1]})
+    fs = scen.build_fs(files, maybe={"/r/src/sub/x.h": b[1]})
     conf = {"p": [scen.entry("/r/src/main.c", [hdr], ["/r/i"])]}
     return fs, conf, list(files)
 
@@ -285,7 +285,40 @@ def t_conditional_include(b):
     return fs, conf, list(files)
 
 
+def t_pragma_variants(b):
+    """#pragma once that is not the first line, sits in a header included from another header, or in an untaken branch"""
+    inc = lambda n: '#include "%s"' % n
+    files = {
+        "/r/main.c": [inc("outer.h"), inc("inner/in.h"), inc("outer.h"), inc("cond.h"), inc("cond.h"), "#if COUNT == 2", "@", "#endif",
+                      "#ifdef IN_TWICE", "@", "#endif"],
+        "/r/outer.h": ["@", "#pragma once", inc("inner/in.h"), "@"],
+        "/r/inner/in.h": ["#pragma once" if b[0] else "@", "#ifdef IN_ONCE", "#define IN_TWICE", "#endif", "#define IN_ONCE", "@"],
+        # the pragma is in a branch that is not taken unless ONCE is defined: otherwise the header is processed twice
+        "/r/cond.h": ["#ifdef ONCE", "#pragma once", "#endif", "#ifdef COUNT1", "#define COUNT 2", "#else", "#define COUNT1", "#endif", "@"],
+    }
+    fs = scen.build_fs(files)
+    conf = {"p": [scen.entry("/r/main.c", ["ONCE"] if b[1] else [], [])]}
+    return fs, conf, list(files)
+
+
+def t_c_includes_c(b):
+    """a .c file that is a compile command's main file is also included by another translation unit; sub-directory
+    components in the include name are resolved against each search directory"""
+    files = {
+        "/r/src/impl.c": ["#ifdef AS_INCLUDE", "@", "#else", "@", "#endif", '#include "detail/d.h"'],
+        "/r/src/unity.c": ["#define AS_INCLUDE", '#include "impl.c"', "#include <detail/d.h>" if b[0] else '#include "detail/d.h"', "@"],
+        "/r/src/detail/d.h": ["#ifndef D_H", "#define D_H", "#ifdef AS_INCLUDE", "@", "#endif", "@", "#endif"],
+        "/r/inc/detail/d.h": ["#define FROM_INC", "@"],
+    }
+    fs = scen.build_fs(files, maybe={"/r/src/detail/d.h": b[1]})
+    paths = ["/r/inc", "/r/src"] if b[2] else ["/r/src", "/r/inc"]
+    conf = {"p": [scen.entry("/r/src/impl.c", [], paths), scen.entry("/r/src/unity.c", [], paths)]}
+    return fs, conf, list(files)
+
+
 TEMPLATES = {
+    "pragma_variants": (t_pragma_variants, 2),
+    "c_includes_c": (t_c_includes_c, 3),
     "same_name": (t_same_name, 5),
     "two_dirs": (t_two_dirs, 5),
     "macro_state": (t_macro_state, 3),
